@@ -9,6 +9,7 @@ import (
 	"encoding/json"
 	"fmt"
 	"math"
+	"net/http"
 	"os"
 	"runtime"
 	"strings"
@@ -20,11 +21,17 @@ import (
 	"google.golang.org/protobuf/proto"
 	"pgregory.net/rapid"
 
+	"connectrpc.com/connect"
+
 	"github.com/yorkie-team/yorkie/api/converter"
 	"github.com/yorkie-team/yorkie/api/types"
 	api "github.com/yorkie-team/yorkie/api/yorkie/v1"
+	"github.com/yorkie-team/yorkie/api/yorkie/v1/v1connect"
 	"github.com/yorkie-team/yorkie/client"
 	"github.com/yorkie-team/yorkie/pkg/document"
+	yjson "github.com/yorkie-team/yorkie/pkg/document/json"
+	"github.com/yorkie-team/yorkie/pkg/document/presence"
+	"github.com/yorkie-team/yorkie/pkg/document/time"
 	"github.com/yorkie-team/yorkie/pkg/key"
 	"github.com/yorkie-team/yorkie/server/clients"
 	"github.com/yorkie-team/yorkie/server/documents"
@@ -46,7 +53,13 @@ func TestMain(m *testing.M) {
 	if os.Getenv(childEnv) != "" {
 		os.Exit(m.Run())
 	}
-	os.Exit(kit.Supervise(os.Getenv("C16_PROP_DEFAULT")+"C16", childEnv))
+	prop := "C16"
+	for _, a := range os.Args {
+		if strings.Contains(a, "TestC04Par") {
+			prop = "C04"
+		}
+	}
+	os.Exit(kit.Supervise(prop, childEnv))
 }
 
 // Workload is one generated case.
@@ -142,6 +155,7 @@ type run struct {
 	mu     sync.Mutex
 	stamps map[string][]stamp  // document key -> PushPull request intervals
 	hists  map[string]*docHist // clientID/docKey
+	dupIDs map[string]bool     // raw peers whose requests are sent twice (deliveries not comparable)
 	ev     map[string]int
 	log    []string
 }
@@ -280,7 +294,7 @@ func (r *run) clientScript(p *peer, sc []WStep) *kit.Failure {
 
 func execute(w Workload) (fail *kit.Failure, ev map[string]int, hist []string) {
 	s := world.Get()
-	r := &run{s: s, w: w, stamps: map[string][]stamp{}, hists: map[string]*docHist{}, ev: map[string]int{}}
+	r := &run{s: s, w: w, stamps: map[string][]stamp{}, hists: map[string]*docHist{}, ev: map[string]int{}, dupIDs: map[string]bool{}}
 	ctx := context.Background()
 	proj := s.Project(w.Interval, w.Threshold, "c16")
 	for d := 0; d < w.Docs; d++ {
@@ -291,6 +305,9 @@ func execute(w Workload) (fail *kit.Failure, ev map[string]int, hist []string) {
 	defer world.Rec.SetSink(nil)
 	defer func() {
 		ev, hist = r.ev, r.log
+		if fail != nil && fail.Kind == "DEADLOCK" {
+			return // the server is wedged: cleaning up would only wait for timeouts
+		}
 		for _, p := range r.peers {
 			_ = p.c.Deactivate(ctx)
 			_ = p.c.Close()
@@ -386,6 +403,16 @@ func execute(w Workload) (fail *kit.Failure, ev map[string]int, hist []string) {
 				}
 				r.count("histview")
 				gotime.Sleep(200 * gotime.Microsecond)
+			}
+		}()
+	}
+	if w.Dup {
+		bg.Add(1)
+		go func() {
+			defer bg.Done()
+			<-start
+			if f := r.dupPeer(proj, r.keys[0], 6); f != nil {
+				fails <- f
 			}
 		}()
 	}
@@ -487,6 +514,85 @@ func execute(w Workload) (fail *kit.Failure, ev map[string]int, hist []string) {
 	return nil, r.ev, r.log
 }
 
+// dupPeer is a raw RPC peer that sends every PushPull request TWICE at the
+// same time (a client that timed out and resent while the first attempt is
+// still being processed). Each change must still be stored exactly once.
+func (r *run) dupPeer(proj *types.Project, k key.Key, n int) *kit.Failure {
+	ctx := context.Background()
+	cli := v1connect.NewYorkieServiceClient(http.DefaultClient, "http://"+r.s.Addr,
+		connect.WithInterceptors(client.NewAuthInterceptor(proj.PublicKey, "")))
+	act, err := cli.ActivateClient(ctx, connect.NewRequest(&api.ActivateClientRequest{ClientKey: world.FreshDocKey("dup")}))
+	if err != nil {
+		return kit.Failf("HARNESS", "dup peer activate: %v", err)
+	}
+	cid := act.Msg.ClientId
+	r.mu.Lock()
+	r.dupIDs[cid] = true
+	r.mu.Unlock()
+	defer func() {
+		_, _ = cli.DeactivateClient(ctx, connect.NewRequest(&api.DeactivateClientRequest{ClientId: cid, Synchronous: true}))
+	}()
+	actor, _ := time.ActorIDFromHex(cid)
+	d := document.New(k)
+	d.SetActor(actor)
+	_ = d.Update(func(root *yjson.Object, p *presence.Presence) error { p.Initialize(nil); return nil })
+	pk, _ := converter.ToChangePack(d.CreateChangePack())
+	att, err := cli.AttachDocument(ctx, connect.NewRequest(&api.AttachDocumentRequest{ClientId: cid, ChangePack: pk}))
+	if err != nil {
+		return kit.Failf("ATTACHFAIL", "dup peer: %v", err)
+	}
+	rp, _ := converter.FromChangePack(att.Msg.ChangePack)
+	if err := d.ApplyChangePack(rp); err != nil {
+		return kit.Failf("APPLYFAIL", "dup peer attach response: %v", err)
+	}
+	d.SetStatus(document.StatusAttached)
+	docID := att.Msg.DocumentId
+	for i := 0; i < n; i++ {
+		if err := d.Update(func(root *yjson.Object, p *presence.Presence) error {
+			if c := root.GetCounter("c"); c != nil {
+				c.Increase(1)
+			} else {
+				root.SetInteger("k0", i)
+			}
+			return nil
+		}); err != nil {
+			return kit.Failf("EDITFAIL", "dup peer: %v", err)
+		}
+		pack, _ := converter.ToChangePack(d.CreateChangePack())
+		type res struct {
+			r   *connect.Response[api.PushPullChangesResponse]
+			err error
+		}
+		ch := make(chan res, 2)
+		for j := 0; j < 2; j++ {
+			go func() {
+				rr, err := cli.PushPullChanges(ctx, connect.NewRequest(&api.PushPullChangesRequest{ClientId: cid, DocumentId: docID,
+					ChangePack: proto.Clone(pack).(*api.ChangePack)}))
+				ch <- res{rr, err}
+			}()
+		}
+		a, b := <-ch, <-ch
+		r.count("duplicate_inflight_request")
+		first := a
+		if first.err != nil {
+			first = b
+		}
+		if first.err != nil {
+			return kit.Failf("SYNCFAIL", "dup peer: both copies of the request failed: %v / %v", a.err, b.err)
+		}
+		rp, err := converter.FromChangePack(first.r.Msg.ChangePack)
+		if err != nil {
+			return kit.Failf("HARNESS", "dup peer decode: %v", err)
+		}
+		if err := d.ApplyChangePack(rp); err != nil {
+			return kit.Failf("APPLYFAIL", "dup peer: %v", err)
+		}
+	}
+	pack, _ := converter.ToChangePack(d.CreateChangePack())
+	_, _ = cli.DetachDocument(ctx, connect.NewRequest(&api.DetachDocumentRequest{ClientId: cid, DocumentId: docID, ChangePack: pack}))
+	return nil
+}
+
 // checkLog evaluates the C04 invariants on the final log of one document.
 func (r *run) checkLog(proj *types.Project, k key.Key) *kit.Failure {
 	ctx := context.Background()
@@ -526,6 +632,9 @@ func (r *run) checkLog(proj *types.Project, k key.Key) *kit.Failure {
 			continue
 		}
 		cid := strings.TrimSuffix(hk, "/"+string(k))
+		if r.dupIDs[cid] {
+			continue
+		}
 		if h.fail != nil {
 			return h.fail
 		}
@@ -593,34 +702,51 @@ func wlHash(w Workload) uint64 {
 	return h
 }
 
-func TestC16(t *testing.T) {
-	col := stats.New("C16", "workloads")
+// runWorkloads drives the generated workloads for one property. isMine selects
+// the failure kinds that are violations of that property (a failure of another
+// kind ends the run as inconclusive for it: the other property's check reports it).
+func runWorkloads(t *testing.T, prop, part string, isMine func(kind string) bool) {
+	col := stats.New(prop, part)
 	defer col.Flush(true)
 	var failed *kit.Failure
 	var failedCase Workload
 	var failedHist []string
 	defer func() {
-		if failed != nil {
-			path := kit.WriteReplay("C16", "workload", fmt.Sprintf("workload-%016x", wlHash(failedCase)), failedCase, failed, failedHist)
+		if failed != nil && isMine(failed.Kind) {
+			path := kit.WriteReplay(prop, "workload", fmt.Sprintf("workload-%016x", wlHash(failedCase)), failedCase, failed, failedHist)
 			col.AddViolation(stats.Violation{Replay: path, Kind: failed.Kind, Msg: failed.Msg})
-			kit.ReportViolation("C16", path, failed)
+			kit.ReportViolation(prop, path, failed)
+		} else if failed != nil {
+			fmt.Printf("HARNESS-ERROR property=%s the workload failed with %s, which is judged by the C16 check: %s\n", prop, failed.Kind, abbreviate(failed.Msg, 300))
 		}
 	}()
 	rapid.Check(t, func(rt *rapid.T) {
 		w := genWorkload().Draw(rt, "workload")
-		kit.SetInflight(childEnv, "workloads", "workload", fmt.Sprintf("workload-%016x", wlHash(w)), w)
+		if failed != nil {
+			// schedule-dependent failures do not shrink meaningfully, and after a
+			// deadlock the server is wedged: stop at the first failure
+			rt.Fatalf("%s", failed.Error())
+		}
+		if prop == "C04" {
+			w.Dup = true // the C04 part always includes the duplicate-request peer
+		}
+		kit.SetInflight(childEnv, part, "workload", fmt.Sprintf("workload-%016x", wlHash(w)), w)
 		fail, ev, hist := execute(w)
 		cls := map[string]int{}
 		for k, v := range ev {
 			cls[k] = v
 		}
-		col.Record(wlHash(w), fail == nil && ev["overlap>=3"] > 0, cls, func() any {
+		nontrivial := ev["overlap>=3"] > 0
+		if prop == "C04" {
+			nontrivial = ev["overlap>=2"] > 0
+		}
+		col.Record(wlHash(w), fail == nil && nontrivial, cls, func() any {
 			b, _ := json.Marshal(w)
 			return map[string]any{"workload": string(b), "events": ev}
 		})
 		if fail != nil {
 			if fail.Kind == "HARNESS" {
-				fmt.Printf("HARNESS-ERROR property=C16 %s\n", fail.Msg)
+				fmt.Printf("HARNESS-ERROR property=%s %s\n", prop, fail.Msg)
 				rt.Fatalf("harness: %s", fail.Msg)
 			}
 			if failed == nil {
@@ -628,6 +754,18 @@ func TestC16(t *testing.T) {
 			}
 			rt.Fatalf("%s", fail.Error())
 		}
+	})
+}
+
+func TestC16(t *testing.T) {
+	runWorkloads(t, "C16", "workloads", func(string) bool { return true })
+}
+
+// TestC04Par is the parallel part of C04: the same workloads (always with the
+// duplicate-request peer), judged by the log/delivery invariants only.
+func TestC04Par(t *testing.T) {
+	runWorkloads(t, "C04", "par", func(kind string) bool {
+		return strings.HasPrefix(kind, "LOG-") || strings.HasPrefix(kind, "DELIVERY-") || strings.HasPrefix(kind, "CHECKPOINT-")
 	})
 }
 
